@@ -86,13 +86,15 @@ Conflict(a, b) ==
     \/ a.op = "timeout" /\ b.op = "timeout"
     \/ (Mutates(a) /\ Observes(b)) \/ (Mutates(b) /\ Observes(a))
 
-WithLink(o, l) == [x \in DOMAIN o \cup {"link"} |-> IF x = "link" THEN l ELSE o[x]]
+\* l: the next operation belongs to this chain; hd: linked with IOSQE_IO_HARDLINK instead of IOSQE_IO_LINK
+WithLinkH(o, l, hd) == [x \in DOMAIN o \cup {"link", "hard"} |-> IF x = "link" THEN l ELSE IF x = "hard" THEN (l /\ hd) ELSE o[x]]
+WithLink(o, l) == WithLinkH(o, l, FALSE)
 
 VARIABLES cur,      \* batch under construction (operations with link flags)
           done      \* closed batches
 \* (an operator with a parameter: TLC evaluates parameterless constant definitions eagerly in every mode)
 Pairs(S) == {<<WithLink(a, FALSE)>> : a \in S}
-         \cup {<<WithLink(p[1], TRUE), WithLink(p[2], FALSE)>> : p \in {q \in S \X S : ~BufClash(q[1], q[2])}}
+         \cup {<<WithLinkH(p[1], TRUE, hd), WithLink(p[2], FALSE)>> : p \in {q \in S \X S : ~BufClash(q[1], q[2])}, hd \in BOOLEAN}
          \cup {<<WithLink(p[1], FALSE), WithLink(p[2], FALSE)>> : p \in {q \in S \X S : ~Conflict(q[1], q[2])}}
 
 Init == IF Mode = "pairs" THEN cur \in Pairs(OpSpace) /\ done = <<>>
@@ -102,13 +104,13 @@ Init == IF Mode = "pairs" THEN cur \in Pairs(OpSpace) /\ done = <<>>
 \* groups = maximal chains; the operation appended without a link to its predecessor opens a group
 GroupStart(k) == k = 1 \/ ~cur[k-1].link
 EarlierGroups == {k \in 1..Len(cur) : \E j \in (k+1)..Len(cur) : GroupStart(j)}   \* not in the last group
-Append1(o, l) ==
+Append1(o, l, hd) ==
     /\ Len(cur) < MaxBatch
     /\ LET joins == cur # <<>> /\ cur[Len(cur)].link
            others == IF joins THEN EarlierGroups ELSE 1..Len(cur) IN
        \A k \in others : ~Conflict(cur[k], o)
     /\ \A k \in 1..Len(cur) : ~BufClash(cur[k], o)
-    /\ cur' = Append(cur, WithLink(o, l /\ Len(cur) + 1 < MaxBatch))
+    /\ cur' = Append(cur, WithLinkH(o, l /\ Len(cur) + 1 < MaxBatch, hd))
     /\ UNCHANGED done
 Close ==
     /\ cur # <<>> /\ ~cur[Len(cur)].link
@@ -116,11 +118,11 @@ Close ==
 
 Seal ==   \* end the current chain (no candidate may fit behind it)
     /\ cur # <<>> /\ cur[Len(cur)].link
-    /\ cur' = [cur EXCEPT ![Len(cur)] = WithLink(@, FALSE)]
+    /\ cur' = [cur EXCEPT ![Len(cur)] = WithLinkH(@, FALSE, FALSE)]
     /\ UNCHANGED done
 \* simulation only: a handful of random candidates per step instead of all |OpSpace| * 2 successors
 Next == /\ Mode = "walk" /\ Len(done) < D
-        /\ (Close \/ Seal \/ \E o \in RandomSubset(6, OpSpace), l \in BOOLEAN : Append1(o, l))
+        /\ (Close \/ Seal \/ \E o \in RandomSubset(6, OpSpace), l \in BOOLEAN, hd \in BOOLEAN : Append1(o, l, hd))
 
 EmitPairs == Mode \in {"pairs", "singles"} => PrintT(<<"BATCH", ToJson(cur)>>)
 EmitWalk == (Mode = "walk" /\ Len(done) = D) => PrintT(<<"WALK", ToJson(done)>>)
